@@ -77,16 +77,26 @@ vars == <<st, t1, t1cnt, itsn, answered, next, rx, sentQ, outQ, sub, ssnOut, del
 
 Ordered == [c \in ChanIds |-> Chans[c].ord]
 
-Kinds == {"INIT", "IACK", "CECHO", "CACK", "DATA", "SACK", "FWD"}
-Pkt(k, src, tsn, fr, gaps) == [k |-> k, src |-> src, tsn |-> tsn, fr |-> fr, gaps |-> gaps, o |-> 0]
+Kinds == {"INIT", "IACK", "CECHO", "CACK", "DATA", "SACK", "FWD", "GSACK"}
+\* o: ordinal among the packets of this kind and direction; g: for a SACK that carries gap blocks, its
+\* ordinal among such SACKs (0 otherwise) - a second content address for the same packet
+Pkt(k, src, tsn, fr, gaps) == [k |-> k, src |-> src, tsn |-> tsn, fr |-> fr, gaps |-> gaps, o |-> 0, g |-> 0]
 \* a DATA packet is addressed by its TSN relative to the sender's initial TSN and its transmission number
 DataPkt(src, tsn, fr, n) == [Pkt("DATA", src, tsn, fr, {}) EXCEPT !.o = n]
-RelTsn(p) == IF p.k = "DATA" THEN (p.tsn + M - itsn[p.src]) % M ELSE 0
+\* a SACK by the cumulative TSN it carries, relative to the initial TSN of the side it acknowledges
+RelTsn(p) == IF p.k = "DATA" THEN (p.tsn + M - itsn[p.src]) % M
+             ELSE IF p.k = "SACK" /\ itsn[Peer(p.src)] # M THEN (p.tsn + 1 + M - itsn[Peer(p.src)]) % M
+             ELSE 0
 
 ---------------------------------------------------------------------------
 (* Network                                                                 *)
-Stamp(p) == IF NetMode = "fifo" /\ p.k # "DATA" THEN [p EXCEPT !.o = cnt[p.src][p.k] + 1]
+IsGapSack(p) == p.k = "SACK" /\ p.gaps # {}
+Stamp(p) == IF NetMode = "fifo" /\ p.k # "DATA"
+            THEN [p EXCEPT !.o = cnt[p.src][p.k] + 1,
+                           !.g = IF IsGapSack(p) THEN cnt[p.src]["GSACK"] + 1 ELSE 0]
             ELSE IF NetMode = "set" THEN [p EXCEPT !.o = 0] ELSE p
+Count(c, p) == IF IsGapSack(p) THEN [c EXCEPT ![p.src][p.k] = @ + 1, ![p.src]["GSACK"] = @ + 1]
+               ELSE [c EXCEPT ![p.src][p.k] = @ + 1]
 \* packets that may be handed to side `to` now
 Avail(to) ==
   IF NetMode = "set" THEN {p \in net : p.src = Peer(to)}
@@ -98,15 +108,15 @@ NetRecv(to, p, out) ==
        /\ UNCHANGED <<wire, held, lastDel, cnt>>
   ELSE /\ wire' = [wire EXCEPT ![Peer(to)] = Tail(@),
                                ![to] = @ \o [i \in 1..Len(out) |-> Stamp(out[i])]]
-       /\ lastDel' = [lastDel EXCEPT ![Peer(to)] = [k |-> p.k, o |-> p.o, t |-> RelTsn(p)]]
-       /\ cnt' = IF out = <<>> THEN cnt ELSE [cnt EXCEPT ![to][out[1].k] = @ + 1]
+       /\ lastDel' = [lastDel EXCEPT ![Peer(to)] = [k |-> p.k, o |-> p.o, t |-> RelTsn(p), g |-> p.g]]
+       /\ cnt' = IF out = <<>> THEN cnt ELSE Count(cnt, out[1])
        /\ UNCHANGED <<net, held>>
 NetSend(from, p) ==
   IF NetMode = "set"
   THEN /\ net' = net \cup {p}
        /\ UNCHANGED <<wire, held, lastDel, cnt>>
   ELSE /\ wire' = [wire EXCEPT ![from] = Append(@, Stamp(p))]
-       /\ cnt' = [cnt EXCEPT ![from][p.k] = @ + 1]
+       /\ cnt' = Count(cnt, p)
        /\ UNCHANGED <<net, held, lastDel>>
 NetSame == UNCHANGED <<net, wire, held, lastDel, cnt>>
 \* fifo mode: retransmission timers are long compared with the network latency, so they fire only
@@ -136,7 +146,7 @@ Init ==
   /\ net = {}
   /\ wire = [s \in Side |-> <<>>]
   /\ held = [s \in Side |-> {}]
-  /\ lastDel = [s \in Side |-> [k |-> "NONE", o |-> 0, t |-> 0]]
+  /\ lastDel = [s \in Side |-> [k |-> "NONE", o |-> 0, t |-> 0, g |-> 0]]
   /\ cnt = [s \in Side |-> [k \in Kinds |-> 0]]
   /\ faults = <<>>
   /\ budget = Budget
@@ -354,8 +364,9 @@ RecvSack(s, p) ==
 (* of that kind in that direction, fault kind, and for delayed copies the  *)
 (* packet after which the copy is released.                                *)
 FaultRec(d, p, kind, after) ==
-  [dir |-> d, k |-> p.k, o |-> p.o, t |-> RelTsn(p), kind |-> kind, ak |-> after.k, ao |-> after.o, at |-> after.t]
-NoAfter == [k |-> "NONE", o |-> 0, t |-> 0]
+  [dir |-> d, k |-> p.k, o |-> p.o, t |-> RelTsn(p), g |-> p.g, kind |-> kind,
+   ak |-> after.k, ao |-> after.o, at |-> after.t, ag |-> after.g]
+NoAfter == [k |-> "NONE", o |-> 0, t |-> 0, g |-> 0]
 ProtoSame == UNCHANGED <<st, t1, t1cnt, itsn, answered, next, rx, sentQ, outQ, sub, ssnOut, deliv, opens, ackPt, advPt, fwd>>
 
 Drop(d) ==
